@@ -1361,9 +1361,10 @@ impl Vm {
         let closure = self.new_root_obj_closure(function.as_gc(), module);
         self.push(Value::ObjClosure(closure.as_gc()));
 
+        // The built-ins go into the module that is being imported. (Which module is active once the
+        // call below returns says nothing: the call can fail and be handled by another module.)
+        self.init_built_in_globals(path.as_str());
         self.call_value(self.peek(0), 0)?;
-        let active_module_path = self.active_module.borrow().path;
-        self.init_built_in_globals(&active_module_path);
         Ok(())
     }
 
